@@ -93,7 +93,8 @@ A_ROUTER_CALL = Contract(
 
 WR_DEFS = dict(c02.HDEFS)
 WR_DEFS.update(R_DEFS)
-WR_DEFS.update({"old_path()": "old(environ['PATH_INFO'] if has(environ, 'PATH_INFO') else '')"})
+# routes are text; the request path is matched as text: PATH_INFO (PEP 3333: Latin-1 reading of the bytes) read as UTF-8
+WR_DEFS.update({"old_path()": "wsgi_dec(old(environ['PATH_INFO'] if has(environ, 'PATH_INFO') else ''))"})
 
 W_ROUTER_CALL = Contract(
     id="wsgi.Router.__call__", file=WR, qualname="Router.__call__", props=["C08"], generator=True,
@@ -102,7 +103,7 @@ W_ROUTER_CALL = Contract(
             "start_response": TFunc(c02.start_response_stub, "start_response")},
     ghosts={"tr": c02.TR_T, "out": c02.OUT_T, "calls": CALLS_T},
     requires=["calls.n == 0", "tr.n_start == 0", "out.n_yield == 0", "out.out_len == 0"],
-    defs=WR_DEFS, ufuncs=R_UF, consts=c02.wsgi_consts(),
+    defs=WR_DEFS, ufuncs=dict(R_UF, **c09.TRANSCODE_UF), consts=c02.wsgi_consts(), stubs=c09.TRANSCODE_STUBS,
     on_yield_from=c09.yield_from_app, on_yield=c02.call_yield, yield_mods=("out",),
     modifies=["environ"], ghost_modifies=["tr", "out", "calls"],
     ensures={
@@ -113,7 +114,7 @@ W_ROUTER_CALL = Contract(
                "environ['PATH_PARAMS'] == route_params(self._route_array[k], old_path())))",
     },
     canaries={"never_dispatches": "calls.n == 0"},
-    assumptions=["A-server", "A-re-2"],
+    assumptions=["A-server", "A-re-2", "A-transcode"],
 )
 
 
